@@ -27,3 +27,5 @@ def check(repo, rep, tier):
     rep.run(rq.rule_api_unreachable, em, rep, 'C12.T5c')
     rep.run(rx.rule_lookup_confined, em, rep, 'C12.T5d')
     rep.run(re_.rule_comment_safe_writes, cm, rep, 'C12.T6')
+    rep.run(rx.rule_clear_restores_context, em, rep, 'C12.T5e')
+    rep.run(rq.rule_checked_name_is_looked_up, em, rep, 'C12.T5f')
